@@ -181,3 +181,92 @@ fn identity_try_into_spec() {
     let r: Result<&[u8], core::convert::Infallible> = core::convert::TryInto::try_into(src);
     match r { Ok(t) => { assert!(t.len() == n); assert!(t.as_ptr() == src.as_ptr()); } Err(_) => { assert!(false); } }
 }
+
+// ---- C18: settings validation and retry arithmetic, checked on the real functions for ALL values (loop-free: complete) ----
+#[kani::proof]
+#[kani::stub(crate::errors::kind::GDErrorKind::context, stub_context)]
+#[kani::stub(<crate::errors::error::GDError as std::convert::From<crate::errors::kind::GDErrorKind>>::from, stub_from_kind)]
+#[kani::stub(alloc::fmt::format, stub_format)]
+fn settings_new_rejects_exactly_zero_durations() {
+    use std::time::Duration;
+    fn any_dur() -> Option<Duration> {
+        if kani::any() { None } else { let n: u32 = kani::any(); kani::assume(n < 1_000_000_000); Some(Duration::new(kani::any(), n)) }
+    }
+    let (r, w, c) = (any_dur(), any_dur(), any_dur());
+    let retries: usize = kani::any();
+    let is_zero = |d: Option<Duration>| match d { Some(x) => x.as_secs() == 0 && x.subsec_nanos() == 0, None => false };
+    let some_zero = is_zero(r) || is_zero(w) || is_zero(c);
+    match crate::protocols::types::TimeoutSettings::new(r, w, c, retries) {
+        Ok(ts) => {
+            assert!(!some_zero);
+            assert!(ts.get_read() == r && ts.get_write() == w && ts.get_connect() == c && ts.get_retries() == retries);
+            let some = Some(ts);
+            assert!(crate::protocols::types::TimeoutSettings::get_retries_or_default(&some) == retries);
+            assert!(crate::protocols::types::TimeoutSettings::get_read_and_write_or_defaults(&some) == (r, w));
+            assert!(crate::protocols::types::TimeoutSettings::get_connect_or_default(&some) == c);
+        }
+        Err(e) => { assert!(some_zero); assert!(e.kind == crate::GDErrorKind::InvalidInput); core::mem::forget(e); }
+    }
+}
+#[kani::proof]
+fn settings_defaults_are_valid() {
+    use crate::protocols::types::TimeoutSettings;
+    let d = TimeoutSettings::default();
+    let nz = |x: Option<std::time::Duration>| match x { Some(v) => !v.is_zero(), None => true };
+    assert!(nz(d.get_read()) && nz(d.get_write()) && nz(d.get_connect()) && d.get_retries() == 0);
+    assert!(TimeoutSettings::get_retries_or_default(&None) == 0);
+    let (r, w) = TimeoutSettings::get_read_and_write_or_defaults(&None);
+    assert!(nz(r) && nz(w) && nz(TimeoutSettings::get_connect_or_default(&None)));
+}
+// the retry helper with the largest retry counts: no overflow, and the closure IS called (first success wins)
+#[kani::proof]
+#[kani::unwind(3)]
+#[kani::stub(crate::errors::kind::GDErrorKind::context, stub_context)]
+#[kani::stub(<crate::errors::error::GDError as std::convert::From<crate::errors::kind::GDErrorKind>>::from, stub_from_kind)]
+#[kani::stub(alloc::fmt::format, stub_format)]
+fn retry_extreme_counts() {
+    let r: usize = kani::any();
+    kani::assume(r >= usize::MAX - 1);
+    let mut calls = 0u8;
+    let res: crate::GDResult<u8> = crate::utils::retry_on_timeout(r, || { calls += 1; Ok(7) });
+    match res { Ok(v) => assert!(v == 7), Err(e) => { core::mem::forget(e); assert!(false); } }
+    assert!(calls == 1);
+}
+// r in 0..=2 over all outcome scripts of 4 attempts: attempts, first decisive outcome, last timeout error
+#[kani::proof]
+#[kani::unwind(5)]
+#[kani::stub(crate::errors::kind::GDErrorKind::context, stub_context)]
+#[kani::stub(<crate::errors::error::GDError as std::convert::From<crate::errors::kind::GDErrorKind>>::from, stub_from_kind)]
+#[kani::stub(alloc::fmt::format, stub_format)]
+fn retry_small_counts_all_scripts() {
+    use crate::GDErrorKind;
+    let r: usize = kani::any();
+    kani::assume(r <= 2);
+    let script: [u8; 4] = kani::any();
+    kani::assume(script[0] <= 4 && script[1] <= 4 && script[2] <= 4 && script[3] <= 4);
+    let mut calls = 0usize;
+    let res: crate::GDResult<u8> = crate::utils::retry_on_timeout(r, || {
+        let o = if calls < 4 { script[calls] } else { 0 };
+        calls += 1;
+        match o {
+            0 => Err(crate::GDError { kind: GDErrorKind::PacketReceive, source: None, backtrace: None }),
+            1 => Err(crate::GDError { kind: GDErrorKind::PacketSend, source: None, backtrace: None }),
+            2 => Err(crate::GDError { kind: GDErrorKind::PacketBad, source: None, backtrace: None }),
+            3 => Err(crate::GDError { kind: GDErrorKind::PacketUnderflow, source: None, backtrace: None }),
+            _ => Ok(9),
+        }
+    });
+    let mut expect_calls = 0usize;
+    let mut decided: Option<u8> = None;
+    let mut i = 0;
+    while i <= r { expect_calls += 1; if script[i] >= 2 { decided = Some(script[i]); break; } i += 1; }
+    assert!(calls == expect_calls && calls <= r + 1);
+    match (res, decided) {
+        (Ok(v), Some(4)) => assert!(v == 9),
+        (Err(e), Some(2)) => { assert!(e.kind == GDErrorKind::PacketBad); core::mem::forget(e); }
+        (Err(e), Some(3)) => { assert!(e.kind == GDErrorKind::PacketUnderflow); core::mem::forget(e); }
+        (Err(e), None) => { assert!(e.kind == if script[r] == 0 { GDErrorKind::PacketReceive } else { GDErrorKind::PacketSend }); core::mem::forget(e); }
+        (Ok(_), _) => assert!(false),
+        (Err(e), _) => { core::mem::forget(e); assert!(false); }
+    }
+}
